@@ -1,6 +1,7 @@
 """C18 — every generated HDL file set is self-consistent and synthesizable Verilog."""
 import json
 import random
+import re
 
 import common as C
 import vcoq
@@ -130,7 +131,7 @@ def run(res, a):
         res.count_case(q, nontrivial=True)
         for fname, msg, gen in syntax:
             classes[gen] = classes.get(gen, 0) + 1
-            kk = next((k for k in known if gen.startswith(known[k].get("match", "\0"))), None)
+            kk = next((k for k in known if re.search(known[k].get("regex", "^$"), gen)), None)
             text = "syntax error in %s: %s" % (fname, msg)
             if kk:
                 res.known_finding("%s %s" % (kk, text))
@@ -139,7 +140,7 @@ def run(res, a):
         if r.get("err"):
             gen = "write-error:" + ("vtextmem" if any("vtextmem" in x for x in (q["bm"].get("shared") or [])) else "other")
             classes[gen] = classes.get(gen, 0) + 1
-            kk = next((k for k in known if gen.startswith(known[k].get("match", "\0"))), None)
+            kk = next((k for k in known if re.search(known[k].get("regex", "^$"), gen)), None)
             if kk:
                 res.known_finding("%s generator panics while writing files: %s" % (kk, r["err"]))
             else:
@@ -157,11 +158,11 @@ def run(res, a):
             mod, ident = names[m - 1], names[x - 1]
             extra = names[a1 - 1] if cls in (3, 5) else ""
             key = "c18_%s_%s" % (CLASSES[cls], extra or ident)
-            gen = "%s:%s:%s" % (CLASSES[cls], mod.rstrip("0123456789") or mod, (extra or ident).rstrip("0123456789") or (extra or ident))
+            gen = "%s:%s:%s" % (CLASSES[cls], mod.rstrip("0123456789") or mod, extra or ident)
             classes[gen] = classes.get(gen, 0) + 1
             text = "%s in module %s: %s %s" % (CLASSES[cls], mod, ident, ("(%s)" % extra) if extra else
                                                 ("expected %d ports, got %d" % (a1, a2)) if cls == 4 else "")
-            kk = next((k for k in known if gen.startswith(known[k].get("match", "\0"))), None)
+            kk = next((k for k in known if re.search(known[k].get("regex", "^$"), gen)), None)
             if kk:
                 res.known_finding("%s %s" % (kk, text))
             else:
